@@ -22,7 +22,7 @@ ASSUMPTIONS = [
     'announced (C05 requires that), keys after it must not',
     'links are observed behaviourally (perturb each source with a fresh valid value and see which targets follow)',
 ]
-REQUIRED = {'composite_with_instance_level_constituent': 3, 'rejected_attempts': 800, 'with_links': 500, 'link_probes': 1500, 'ref_attempts': 170, 'dynamic_attempts': 60, 'async_attempts': 35,
+REQUIRED = {'composite_with_instance_level_constituent': 2, 'rejected_attempts': 800, 'with_links': 500, 'link_probes': 1500, 'ref_attempts': 170, 'dynamic_attempts': 60, 'async_attempts': 35,
             'unchecked_selector_attempts': 30, 'class_route_follow_probes': 12}
 
 _st = {}
